@@ -2,6 +2,7 @@ package file
 
 import (
 	"bufio"
+	"bytes"
 	"context"
 	"errors"
 	"fmt"
@@ -95,7 +96,9 @@ func (fsp *rawFileStreamProvider) Emit(ctx context.Context) ([]byte, error) {
 	default:
 		for {
 			if fsp.scanner.Scan() {
-				return fsp.scanner.Bytes(), nil
+				// The scanner hands out a view into its internal buffer, which is overwritten by later reads.
+				// Copy it so that the emitted element keeps its value after the next elements are pulled
+				return bytes.Clone(fsp.scanner.Bytes()), nil
 			}
 			if err := fsp.scanner.Err(); err != nil {
 				return nil, err
